@@ -26,5 +26,5 @@ ModelC12x == C12_ExQuoted(AsEvent)
 ModelC12 == ~HasQuoted(CellRows(AsEvent.rows)) => C12_OK(AsEvent)
 \* a header followed by a line end is a legend, whatever follows: the drawing stops there
 LegendCut == Doc.found => \A i \in 1..Len(AsEvent.rows) : ~IsLegendRow(AsEvent.rows[i])
-Emit == done => PrintT(<<"REPLAY", ToJson([text |-> txt, out |-> Doc.out, w |-> Doc.w, h |-> Doc.h, rules |-> Doc.rules])>>)
+Emit == done => PrintT(<<"REPLAY", ToJson([text |-> txt, out |-> Doc.out, tags |-> Doc.tags, w |-> Doc.w, h |-> Doc.h, rules |-> Doc.rules])>>)
 =============================================================================
